@@ -62,11 +62,12 @@ class V1Parser:
             invalid PROXY header.
         """
         self.buffer += data
-        if len(self.buffer) > 107 and self.NEWLINE not in self.buffer:
-            raise InvalidProxyHeader()
-        lines = (self.buffer).split(self.NEWLINE, 1)
-        if not len(lines) > 1:
+        # The whole line, including its CRLF, is at most 107 bytes long.
+        if self.NEWLINE not in self.buffer[:107]:
+            if len(self.buffer) >= 107:
+                raise InvalidProxyHeader()
             return (None, None)
+        lines = (self.buffer).split(self.NEWLINE, 1)
         self.buffer = b""
         remaining = lines.pop()
         header = lines.pop()
